@@ -51,4 +51,25 @@ def World.act (w : World) (a : SysAction) : World := { w with acts := w.acts ++ 
 def World.alloc {α : Type} (w : World) (v : α) : World × Option (Ref α) :=
   ({ w with heap := w.heap + 1 }, some { id := w.heap, val := v })
 
+/-! ### byte-slice parameters read at a position (decoders with a position-based loop) -/
+
+/-- `binary.BigEndian.Uint16(b[off:])`: `b[off:]` panics unless `0 ≤ off ≤ len(b)` (slice bounds),
+    `Uint16` panics unless two bytes follow (index): `none` in both cases. -/
+def beU16At? (b : List UInt8) (off : Int64) : Option UInt16 :=
+  if 0 ≤ off.toInt ∧ off.toInt + 2 ≤ b.length then
+    some (((b.getD off.toInt.toNat 0).toUInt64.toUInt16 <<< (8 : UInt16)) |||
+      ((b.getD (off.toInt.toNat + 1) 0).toUInt64.toUInt16))
+  else none
+
+/-- `b[lo:hi]` as a value: the bytes `lo ≤ i < hi`. Go panics unless `0 ≤ lo ≤ hi ≤ cap(b)`; this
+    rendering says `none` already for `hi > len(b)` — for `len(b) < hi ≤ cap(b)` Go would instead
+    expose bytes beyond the length. The tie theorems of the decoders that use it prove that the
+    generated function never takes this branch at all (`hi ≤ len(b)` is checked by the code before),
+    so the difference is never observed. The value shares memory with `b` in Go: faithful as long as
+    nobody writes `b` while the value lives (callers in /repo pass a buffer made for the call). -/
+def subslice? (b : List UInt8) (lo hi : Int64) : Option (List UInt8) :=
+  if 0 ≤ lo.toInt ∧ lo.toInt ≤ hi.toInt ∧ hi.toInt ≤ b.length then
+    some ((b.drop lo.toInt.toNat).take (hi.toInt.toNat - lo.toInt.toNat))
+  else none
+
 end ScionTime.Go
